@@ -13,12 +13,15 @@
                                 also the padding of C13) is ONE instruction that the decoder reads as a nop of
                                 exactly n bytes;
    * `no_operand_lines`       — kernel-checked, text level: the no-operand instructions;
+   * `regpair_fields`         — kernel-checked (evaluation by the kernel, no native_decide): REX and ModRM as get_rex_prefix / get_reg compute
+                                them name the two registers at their width, for EVERY encodable pair of general registers of all four widths;
    * `letter_case_irrelevant` — kernel-checked, for EVERY line and option byte: writing any of its letters in the other case
                                 gives the same per-line result, so the sweep over lower-case spellings covers upper and mixed case.
 -/
 import AL.Properties.Sweep.C01
 import AL.Impl.Parser
 import AL.Lemmas.FilterLemmas
+import AL.Impl.Encoder
 namespace AL.Properties.C01
 open AL AL.Impl AL.Gen AL.Spec.X86
 
@@ -50,5 +53,41 @@ theorem letter_case_irrelevant (opt : Nat) (t1 t2 : Str) (h : t1.map tolower = t
   AL.Lemmas.assembleLine_of_filter opt t1 t2 (by rw [AL.Lemmas.filterLine_case t1 t2 h])
 
 example : (toStr "MOVZX EAX, BL").map tolower = (toStr "movzx eax, bl").map tolower := by decide
+
+/-- a register operand as the lexer leaves it -/
+def regOpd (r : Reg) : Operand := { str := toStr r.name, reg := strToReg (toStr r.name), index := c_reg_none, type := 114 }
+
+/-- does the register need a REX prefix (r8..r15 and their parts, spl bpl sil dil) -/
+def needsRex (r : Reg) : Bool := r.num ≥ 8 || (r.file == .gpr8 && r.num ≥ 4)
+
+/-- x86-64 cannot encode a legacy high-byte register next to one that needs REX -/
+def pairOk (m r : Reg) : Bool := !((m.file == .gpr8h || r.file == .gpr8h) && (needsRex m || needsRex r))
+
+/-- REX and ModRM of a two-register form as `get_rex_prefix` and `get_reg` compute them (rm operand m, reg operand r), read back as the
+    architecture reads them: mod = 11, rm + 8·REX.B names m, reg + 8·REX.R names r, REX.W exactly for 64 bits, REX.X clear, and REX is
+    absent or a value 0x40..0x4f -/
+def pairFieldsOk (bits : Nat) (m r : Reg) : Bool :=
+  let s0 : Instr := { modDisp := c_MOD24 }
+  let (s1, rex) := getRexPrefix s0 (regOpd m) (regOpd r)
+  match getRegFinish s1 (regOpd m) (regOpd r).reg with
+  | .error _ => false
+  | .ok s2 =>
+    let modrm := s2.hex.reg
+    let hasRex := rex != 0
+    (rex == 0 || (0x40 ≤ rex && rex ≤ 0x4f)) && modrm / 64 == 3 && modrm < 256 &&
+    mkReg .gpr bits hasRex (modrm % 8 + 8 * (rex % 2)) == m &&
+    mkReg .gpr bits hasRex ((modrm / 8) % 8 + 8 * ((rex / 4) % 2)) == r &&
+    ((rex / 8) % 2 == 1) == (bits == 64) && (rex / 2) % 2 == 0
+
+/-- **REX and ModRM of every register pair** (kernel evaluation): for all four widths and EVERY pair of general registers of that width
+    that x86-64 can encode together (r8-r15 and their parts, spl/bpl/sil/dil, the legacy high-byte registers), the prefix and ModRM
+    byte that `get_rex_prefix` and `get_reg` compute name exactly those two registers at that width -/
+theorem regpair_fields :
+    ([8, 16, 32, 64].all fun bits => (regsOf .gpr bits).all fun m => (regsOf .gpr bits).all fun r =>
+      !pairOk m r || pairFieldsOk bits m r) = true := by decide +kernel
+
+example : pairOk ⟨.gpr8h, 4⟩ ⟨.gpr8, 6⟩ = false ∧ pairOk ⟨.gpr8h, 4⟩ ⟨.gpr8, 3⟩ = true ∧ pairFieldsOk 8 ⟨.gpr8, 6⟩ ⟨.gpr8, 0⟩ = true := by decide +kernel
+
+
 
 end AL.Properties.C01
